@@ -1,7 +1,7 @@
 #!/bin/sh
 # usage: tools/reseed_all.sh [glob]  — regression: re-runs every stored seeded change (seeded/<id>/patch.diff) against
-# the current quick check of its property and prints CAUGHT/MISSED per change (C07c is expected to be MISSED: it
-# does not break C07 as stated, see DESIGN.md)
+# the current quick check of its property and prints CAUGHT/MISSED per change (C07c and C07i are expected to be MISSED: they
+# do not break C07 as stated, see DESIGN.md)
 V=${VERIF_DIR:-/verif}; cd $V
 for d in seeded/${1:-*}; do
   [ -f $d/patch.diff ] || continue
